@@ -15,6 +15,7 @@ RULE = (
     "prediction, posterior/variational prediction, objective value and gradients; distinct = (family, history, mechanism); non-trivial iff "
     "the model's state differs from a default-constructed model's (parameters perturbed or trained)"
     "; pass 5: priors registered by parameter name and by a module-level closure; copies first looked at only after the original has moved; copies' objectives after the original moved"
+    '; pass 6: exact Kronecker multitask and lazily constructed RFF families; checkpoints are not modified by loading them (second load of other values, third load back); used variational models reset to a checkpoint taken before their first call'
 )
 REQUIRED = ["state_dict_roundtrip", "pickle_roundtrip", "deepcopy_roundtrip", "objective_roundtrip", "prior_params_carried"]
 ASSUMPTIONS = ["pickle/deepcopy of an object are compared with the original at 1e-9 (caches may be recomputed), state_dict round trip at 1e-7"]
